@@ -35,14 +35,20 @@ PROPS = {
     "C12": {"level": "translation_validation", "bounds_text": BT, "V": G([], "^Harness_Diff_", "^C12/"), "K": [K("^Harness_K12_", "^C12/")], "O": "selection"},
     "C13": {"level": "translation_validation", "bounds_text": BT, "V": G([], "^Harness_Diff_", "^C13/"), "K": [K("^Harness_K9_", "^C13/", strmax=5)]},
     "C15": {"level": "translation_validation", "bounds_text": BT, "V": G([], "^Harness_Diff_", "^C15/"), "O": "sorted"},
-    "C03": {"level": "model_checking", "bounds_text": BT, "G": G(["rt"], "^Harness_RT_", "^C03/")},
+    "C03": {"level": "model_checking", "bounds_text": BT, "G": G(["rt", "schema"], "^Harness_(RT|Schema)_", "^C03/")},
     "C04": {"level": "model_checking", "bounds_text": BT, "G": G(["rt"], "^Harness_RT_", "^C04")},
     "C19": {"level": "model_checking", "bounds_text": BT, "G": G(["rt"], "^Harness_RT_", "C19/")},
     "C20": {"level": "model_checking", "bounds_text": BT, "G": G(["rt"], "^Harness_RT_", "^C20/")},
     "C07": {"level": "model_checking", "bounds_text": BT, "G": G(["rt", "from"], "^Harness_(RT|From)_", "^C07/", programs="oneof|empty|mini|sorted|docs|deep-n"),
             "K": [K("^Harness_K10_", "^C07/")]},
-    "C06": {"level": "model_checking", "bounds_text": BT,
-            "G": G(["corrupt"], "^Harness_Corrupt", "^C06/", programs={"quick": "mini|embed$|scal-S1|time|cast|flags|mapnest|empty", "thorough": "mini|nest$|embed$|oneof$|scal-S1|time|cast|flags|names|multi|mapnest|deep|empty"}, gosym=["-prune=false", "-solver", "z3-new"])},
+    "C06": {"level": "model_checking", "bounds_text": dict(BT, list_length="<= 2 in both tiers (C06); the thorough tier adds programs and witnesses"),
+            "G": G(["corrupt"], "^Harness_Corrupt", "^C06/", programs={"quick": "mini|embed$|scal-S1|time|cast|flags|mapnest|empty", "thorough": "mini|embed$|scal-S1|time|cast|flags|names|multi|mapnest|deep-[lmn]|empty"}, gosym=["-prune=false", "-solver", "z3-new"],
+                   # measured: with lists of 3 the corrupt family needs 20-30 min per program (P-nest, P-oneof: more than an hour);
+                   # the thorough tier of C06 widens the set of programs and cross-checks every verdict, at the quick tier's sizes
+                   bounds={"quick": {"KL": 2, "KM": 2}, "thorough": {"KL": 2, "KM": 2}},
+                   # no cross-check for C06: z3 4.8.12 does not decide these queries within its cap (that is why z3 5.1.0 is
+                   # the primary solver here); a cross-check that times out on most obligations only costs 45 s each
+                   solver2=False)},
     "C05": {"level": "model_checking", "bounds_text": BT, "G": G(["from"], "^Harness_From_", "^C05/")},
     "C08": {"level": "model_checking", "bounds_text": BT, "G": G(["echo"], "^Harness_Echo_", "^C08/")},
     "C09": {"level": "model_checking", "bounds_text": BT, "G": G(["refresh"], "^Harness_Refresh_", "^C09/")},
